@@ -2309,3 +2309,59 @@ def rule_name_dispatch_rejects_unknown(ctx, rep: Report, rid="V9", package="gtwr
     rep.units["name_dispatch_chains"] = n
     if scanned < min_functions:
         raise AnalysisError(f"{rep.prop}/{rid}: only {scanned} functions scanned in {package}")
+
+
+def rule_parent_walk_truthiness(ctx, rep: Report, rid="N9", package="gtwrap/"):
+    """Walks up the `.parent` links stop at the root by testing the link's *truthiness* (`while ancestor and ancestor.name`;
+    the root's parent is `''`).  That is a test for "there is a parent" only as long as every object that can be a parent is
+    always truthy: a class that owns children (`child.parent = self`) and defines `__len__` or `__bool__` is falsy when it is
+    empty, and the walk then stops below an empty namespace - the qualified name of everything declared through it (a
+    typedef'd template whose own namespace holds nothing else) loses its namespaces."""
+    prog = ctx.prog
+    # truthiness tests of a link that came from `.parent`
+    tests = []
+    scanned = 0
+    for mi in sorted(prog.modules.values(), key=lambda m: m.rel):
+        if not mi.rel.startswith(package):
+            continue
+        for fn in [f for f in ast.walk(mi.tree) if isinstance(f, ast.FunctionDef)]:
+            scanned += 1
+            links = {t.id for st in walk_no_nested(fn) if isinstance(st, ast.Assign) and isinstance(st.value, ast.Attribute) and st.value.attr == "parent"
+                     for t in st.targets if isinstance(t, ast.Name)}
+
+            def is_link(e) -> bool:
+                return (isinstance(e, ast.Name) and e.id in links) or (isinstance(e, ast.Attribute) and e.attr == "parent")
+            for n_ in walk_no_nested(fn):
+                subjects = []
+                if isinstance(n_, (ast.If, ast.While, ast.IfExp)):
+                    t = n_.test
+                    subjects = [t] if not isinstance(t, ast.BoolOp) else list(t.values)
+                elif isinstance(n_, ast.UnaryOp) and isinstance(n_.op, ast.Not):
+                    subjects = [n_.operand]
+                for s_ in subjects:
+                    while isinstance(s_, ast.UnaryOp) and isinstance(s_.op, ast.Not):
+                        s_ = s_.operand
+                    if is_link(s_):
+                        tests.append((mi, fn, s_))
+    # classes that become a parent, and whether they can be falsy
+    owners = []
+    for mi in sorted(prog.modules.values(), key=lambda m: m.rel):
+        if not mi.rel.startswith(package):
+            continue
+        for q, ci in sorted(mi.classes.items()):
+            owns = any(isinstance(st, ast.Assign) and any(isinstance(t, ast.Attribute) and t.attr == "parent" for t in st.targets)
+                       and isinstance(st.value, ast.Name) and st.value.id == "self" for m in ci.methods.values() for st in ast.walk(m))
+            # ... and can stand in such a chain: the walks read `<link>.name`, so only owners that carry a name are ancestors
+            named = any(isinstance(st, (ast.Assign, ast.AnnAssign)) and any(isinstance(t, ast.Attribute) and t.attr == "name" and isinstance(t.value, ast.Name)
+                                                                             and t.value.id == "self" for t in (st.targets if isinstance(st, ast.Assign) else [st.target]))
+                        for k in prog.mro(ci) for m in k.methods.values() for st in ast.walk(m))
+            if owns and named:
+                owners.append(ci)
+    if not tests or not owners:
+        raise AnalysisError(f"{rep.prop}/{rid}: {len(tests)} truthiness tests of a parent link, {len(owners)} classes that own children ({scanned} functions scanned)")
+    where = "; ".join(sorted({f"{fn.name} (`{unparse(s_)}`)" for _, fn, s_ in tests})[:3])
+    for ci in owners:
+        falsy = [m for k in prog.mro(ci) for m in ("__len__", "__bool__") if m in k.methods]
+        rep.add(rid, f"parent link:{ci.qual}:an object that can be a parent is always truthy", not falsy,
+                f"{ci.qual} defines {falsy}: an empty one is falsy, and {where} take a falsy link for the end of the chain - every name qualified through an "
+                f"empty {ci.name} loses the namespaces above it", f"{ci.mod.rel}:{ci.node.lineno}")
